@@ -337,7 +337,9 @@ func c02Typestate(p *Prog, l *Ledger) {
 								bad = append(bad, fmt.Sprintf("%s: the listener of one acquisition is returned with the ok flag of something else", p.At(s.call)))
 							}
 						}
-						if ok2 {
+						if ok2 && len(rv) == 2 && strip(rv[1], false) == s.ok && okKnown && !okTrue {
+							// both results of the refused call are passed on unchanged: a refusal, reported as one
+						} else if ok2 {
 							count++
 							how = append(how, "returned")
 							returnedAsSuccess = true
